@@ -13,6 +13,7 @@ import (
 	"github.com/pdfcpu/pdfcpu/pkg/pdfcpu/types"
 	"verif/mc/core"
 	"verif/mc/docgen"
+	"verif/mc/isocrypt"
 	"verif/mc/pdfx"
 	"verif/mc/strictpdf"
 )
@@ -136,16 +137,16 @@ func wops(full bool) []wop {
 func init() {
 	rule := "document family (page counts 1-4 x flat/nested tree x attribute inheritance schemes; classic / xref-stream / object-stream input x dense / gapped numbering / live reference to a free object that is not first on the free list x attachment / outline / filtered content / no info) x 12 writer configurations (xref table|stream x object streams on|off x EOL LF|CR|CRLF) x writing operations (optimize, rewrite without optimization, set page mode, add keywords, encrypt RC4-128 / AES-256, incremental annotation; thorough adds RC4-40, AES-128, rotate, merge); "
 	core.Register(&core.Check{
-		ID:    "C18",
-		Level: "exploration",
-		Rule:  rule + "every output is parsed by an independent strict, non-repairing structure reader (mc/strictpdf): header, startxref target, exact 20-byte xref entries or xref stream rows, every in-use entry locating 'n g obj' (or a valid object-stream index), /Size, free-list chain, exact /Length, /Prev chain; non-trivial = an output with at least one free object, object stream, increment or non-LF EOL",
+		ID:     "C18",
+		Level:  "exploration",
+		Rule:   rule + "every output is parsed by an independent strict, non-repairing structure reader (mc/strictpdf): header, startxref target, exact 20-byte xref entries or xref stream rows, every in-use entry locating 'n g obj' (or a valid object-stream index), /Size, free-list chain, exact /Length, /Prev chain; the same oracle on decrypt / change-user-password / rotate of encrypted inputs pdfcpu did not write (mc/isocrypt: R2..R6, RC4 and AES, /Length direct or a reference) under every writer configuration; non-trivial = an output with at least one free object, object stream, increment or non-LF EOL",
 		Assume: []string{"mc/strictpdf is the oracle (hand-built conforming files parse clean, each required corruption is reported - its own tests); for encrypted outputs object-stream contents cannot be inspected"},
 		Run:    func(r *core.R) { runC18C19(r, true) },
 	})
 	core.Register(&core.Check{
-		ID:    "C19",
-		Level: "exploration",
-		Rule:  rule + "every output is read back and compared with the input as seen through the harness's own page-tree walker: page sequence by content markers, decoded content, effective MediaBox/CropBox/Rotate, resources (canonical deep serialisation), Info title, and for plain rewrites the canonical serialisation of the whole object graph from the catalog; non-trivial = an output written with object streams, xref stream, non-LF EOL or encryption",
+		ID:     "C19",
+		Level:  "exploration",
+		Rule:   rule + "every output is read back and compared with the input as seen through the harness's own page-tree walker: page sequence by content markers, decoded content, effective MediaBox/CropBox/Rotate, resources (canonical deep serialisation), Info title, and for plain rewrites the canonical serialisation of the whole object graph from the catalog; non-trivial = an output written with object streams, xref stream, non-LF EOL or encryption",
 		Assume: []string{"pdfcpu's reader is trusted for tokenising the files (the property is phrased in terms of reading back); inheritance, page order and graph comparison are the harness's own"},
 		Run:    func(r *core.R) { runC18C19(r, false) },
 	})
@@ -193,6 +194,11 @@ func runC18C19(r *core.R, structure bool) {
 	for fi := range fam {
 		for ci := range confs {
 			for oi := range ops {
+				if ops[oi].name == "add-annotation-as-increment" && strings.HasSuffix(fam[fi].Name, "/indirect-lengths-zero") {
+					// an incremental update keeps the input bytes as its first revision: the deliberately wrong
+					// lengths of this input are still there and are not something pdfcpu wrote
+					continue
+				}
 				jobs = append(jobs, job{fi, ci, oi})
 			}
 		}
@@ -287,7 +293,7 @@ func runC18C19(r *core.R, structure bool) {
 			if what == "" && op.name != "add-annotation-as-increment" {
 				fp := pdfx.PageFingerprint(ctx, p)
 				if fp != views[j.fi].fps[pi] {
-					what = fmt.Sprintf("page fingerprint differs:\n  in : %s\n  out: %s", trimTo(views[j.fi].fps[pi], 300), trimTo(fp, 300))
+					what = fmt.Sprintf("page fingerprint differs:\n  in : %s\n  out: %s", trimTo(views[j.fi].fps[pi], 3000), trimTo(fp, 3000))
 				}
 			}
 			if what != "" {
@@ -309,6 +315,101 @@ func runC18C19(r *core.R, structure bool) {
 		}
 		if ji%997 == 0 {
 			r.Sample(rep)
+		}
+	})
+	if structure {
+		c18Encrypted(r)
+	}
+}
+
+// c18Encrypted: the structure oracle on outputs derived from ENCRYPTED inputs that pdfcpu did not write itself
+// (mc/isocrypt: revisions 2..6, RC4 and AES, the content stream's /Length direct or a reference): decrypt,
+// change the user password (decrypt + re-encrypt), rotate with the password supplied, under every writer
+// configuration. Stream lengths change between cipher text and plain text; a length taken from the wrong side
+// shows up as an inexact /Length.
+func c18Encrypted(r *core.R) {
+	type alg struct {
+		name string
+		rev  int
+		aes  bool
+		kl   int
+	}
+	algs := []alg{{"R2-RC4-40", 2, false, 40}, {"R3-RC4-128", 3, false, 128}, {"R4-RC4-128", 4, false, 128}, {"R4-AES-128", 4, true, 128}, {"R5-AES-256", 5, true, 256}, {"R6-AES-256", 6, true, 256}}
+	type eop struct {
+		name string
+		run  func(in []byte, c *model.Configuration) ([]byte, error)
+	}
+	buf := func(f func(rs io.ReadSeeker, w io.Writer) error) func(in []byte) ([]byte, error) {
+		return func(in []byte) ([]byte, error) {
+			var out bytes.Buffer
+			err := f(bytes.NewReader(in), &out)
+			return out.Bytes(), err
+		}
+	}
+	eops := []eop{
+		{"decrypt", func(in []byte, c *model.Configuration) ([]byte, error) {
+			return buf(func(rs io.ReadSeeker, w io.Writer) error { return api.Decrypt(rs, w, c) })(in)
+		}},
+		{"change-user-password", func(in []byte, c *model.Configuration) ([]byte, error) {
+			return buf(func(rs io.ReadSeeker, w io.Writer) error { return api.ChangeUserPassword(rs, w, "u", "new", c) })(in)
+		}},
+		{"rotate-encrypted", func(in []byte, c *model.Configuration) ([]byte, error) {
+			return buf(func(rs io.ReadSeeker, w io.Writer) error { return api.Rotate(rs, w, 90, nil, c) })(in)
+		}},
+	}
+	type job struct {
+		a        alg
+		indirect bool
+		wc       wconf
+		op       eop
+	}
+	var jobs []job
+	for _, a := range algs {
+		for _, ind := range []bool{false, true} {
+			for _, wc := range wconfs() {
+				if r.Quick() && wc.eol != "\n" {
+					continue
+				}
+				for _, op := range eops {
+					jobs = append(jobs, job{a, ind, wc, op})
+				}
+			}
+		}
+	}
+	r.Note("encrypted_input_jobs", len(jobs))
+	core.ParFor(len(jobs), func(i int) {
+		j := jobs[i]
+		in, _, _ := isocrypt.BuildEncryptedPDF(isocrypt.DocSpec{R: j.a.rev, AES: j.a.aes, KeyBits: j.a.kl, UserPw: []byte("u"), OwnerPw: []byte("o"),
+			P: -44, EncryptMetadata: true, Marker: "c18", IndirectLength: j.indirect})
+		c := j.wc.conf()
+		c.UserPW, c.OwnerPW = "u", "o"
+		var out []byte
+		var err error
+		pv, _ := core.Try(func() { out, err = j.op.run(in, c) })
+		r.Eval(1)
+		name := fmt.Sprintf("isocrypt %s, indirect /Length=%v", j.a.name, j.indirect)
+		rep := map[string]any{"document": name, "writer": j.wc.String(), "operation": j.op.name}
+		if pv != nil {
+			if key := "panic:" + j.op.name; r.Want(key) {
+				r.Violation(key, fmt.Sprintf("%s on %s with %s panicked: %v", j.op.name, name, j.wc, pv), rep)
+			}
+			return
+		}
+		if err != nil {
+			// revisions pdfcpu refuses to process are C26's subject
+			r.Count("encrypted_input_operation_refused", 1)
+			return
+		}
+		r.Nontrivial(1)
+		sf := strictpdf.Parse(out)
+		for _, p := range sf.Problems {
+			if strings.Contains(p, "keyword stream is followed by CR alone") {
+				continue
+			}
+			key := fmt.Sprintf("structure:%s:%s:encrypted-input:indirect-length=%v", problemClass(p), j.op.name, j.indirect)
+			if r.Want(key) {
+				r.Violation(key, fmt.Sprintf("%s on %s with %s: %s", j.op.name, name, j.wc, p), rep)
+			}
 		}
 	})
 }
